@@ -62,7 +62,9 @@ Qed.
    of node 2 would be followed by the converters for I2 *)
 Example gen_compile_examples :
   C.compile_checks ex_xs = false /\
-  (let r := fst (x_run_ops (V.validate_entry ex_u) (fun _ xs _ _ => BOk xs []) (fun _ xs _ _ => BOk xs []) (fun _ _ _ _ _ => true) (fun _ => true)
+  (let r := fst (x_run_ops (V.validate_entry ex_u) (fun xs _ _ _ _ _ _ => AOk xs)
+                   (fun upd xs s e _ _ => match upd (x_add_tvm (let xs1 := if N.eqb s kSTART then x_mark_start xs else xs in if N.eqb e kEND then x_mark_end xs1 else xs1) s e) with Some xs' => AOk (x_add_data xs' s e) | None => AFailSticky end)
+                   (fun _ xs _ _ _ _ _ _ => AOk xs) (fun _ => true)
                    (fun _ _ _ => []) 0 ex_xs [OpEdge 2 3; OpEdge 0 2; OpEdge 3 1; OpEdge 4 1; OpEdge 0 4]%N) in
    C.compile_checks r = true /\ C.handler_convs r 2%N = (Some (TIface 1), Some (TIface 1)) /\
    C.handler_convs r 3%N = (None, None)).
